@@ -1,7 +1,6 @@
 package codec
 
 import (
-	"reflect"
 	"bytes"
 	"crypto/sha256"
 	"encoding/hex"
@@ -10,6 +9,7 @@ import (
 	"os"
 	"os/exec"
 	"path/filepath"
+	"reflect"
 	"strings"
 	"sync"
 	"testing"
@@ -57,7 +57,7 @@ type c20PlainVersion struct {
 var c20RegisterOnce sync.Once
 
 func c20Register() {
-	c20RegisterOnce.Do(func() { ttlv.RegisterTag("VerifPlainVersion", 0x540140, reflect.TypeFor[c20PlainVersion]()) })
+	c20RegisterOnce.Do(func() { ttlv.RegisterHideTag(0x420094); ttlv.RegisterTag("VerifPlainVersion", 0x540140, reflect.TypeFor[c20PlainVersion]()) })
 }
 
 func c20Fresh(kind string) any {
@@ -88,7 +88,8 @@ func (e *c20Encoders) encode(which string, v any) []byte {
 		case "json":
 			return ttlv.MarshalJSON(v)
 		case "text":
-			return ttlv.MarshalText(v)
+			// the hiding text form (Unique Identifier is registered as a tag to hide in every child)
+			return ttlv.MarshalText(v, true)
 		}
 		return ttlv.MarshalTTLV(v)
 	}
@@ -285,7 +286,7 @@ func TestC20Child(t *testing.T) {
 		close(start)
 		wg.Wait()
 	case "history":
-		e := &c20Encoders{reuse: true, bin: ttlv.NewTTLVEncoder(), xml: ttlv.NewXMLEncoder(), json: ttlv.NewJSONEncoder(), text: ttlv.NewTextEncoder()}
+		e := &c20Encoders{reuse: true, bin: ttlv.NewTTLVEncoder(), xml: ttlv.NewXMLEncoder(), json: ttlv.NewJSONEncoder(), text: ttlv.NewTextEncoder(true)}
 		for _, i := range p.Prefix {
 			_ = c20Exec(p.Jobs[i], e)
 		}
